@@ -159,12 +159,42 @@ def variant_for(seed, *salt):
     return core.h64(repr((seed,) + salt)) % len(VARIANTS)
 
 
+_ssl_files = None
+
+
+def ssl_files():
+    """a fresh self-signed certificate for 127.0.0.1 / localhost, made once per process with the openssl command line tool (the certificates
+    shipped in the repository's certs/ directory have expired on this machine's clock, so a verifying Pyro client would refuse them)"""
+    global _ssl_files
+    if _ssl_files is None:
+        import atexit
+        import shutil
+        import subprocess
+        d = os.path.join(core.VERIF, ".work", "ssl-%d" % os.getpid())
+        os.makedirs(d, exist_ok=True)
+        key, cert = os.path.join(d, "key.pem"), os.path.join(d, "cert.pem")
+        subprocess.run(["openssl", "req", "-x509", "-newkey", "ec", "-pkeyopt", "ec_paramgen_curve:prime256v1", "-nodes", "-keyout", key, "-out", cert, "-days", "3", "-subj", "/CN=localhost",
+                        "-addext", "subjectAltName=IP:127.0.0.1,DNS:localhost"], check=True, capture_output=True, timeout=120)
+        atexit.register(shutil.rmtree, d, True)
+        _ssl_files = (cert, key)
+    return _ssl_files
+
+
 class Fixture:
-    def __init__(self, servertype="thread", unix=False, daemon_cls=None, interface=None, variant=None, start_loop=True, **cfg):
+    def __init__(self, servertype="thread", unix=False, daemon_cls=None, interface=None, variant=None, start_loop=True, ssl=False, **cfg):
         P = pyro()
         install_fault_hooks()
         self.P = P
         config = P.config
+        self.ssl = bool(ssl) and not unix
+        from vlib import wire as _wire
+        if self.ssl:
+            # the daemon speaks TLS (config.SSL): Proxy clients verify the certificate made for this process, raw clients wrap their socket
+            cert, key = ssl_files()
+            config.SSL, config.SSL_SERVERCERT, config.SSL_SERVERKEY, config.SSL_CACERTS, config.SSL_REQUIRECLIENTCERT = True, cert, key, cert, False
+        else:
+            config.SSL = False
+        _wire.DEFAULT_SSL = self.ssl
         config.SERVERTYPE = servertype
         config.POLLTIMEOUT = cfg.pop("POLLTIMEOUT", 0.5)
         global LAST_VARIANT
@@ -279,6 +309,10 @@ class Fixture:
             self.daemon.shutdown()
         except Exception:
             pass
+        if self.ssl:
+            from vlib import wire as _wire
+            self.P.config.SSL = False
+            _wire.DEFAULT_SSL = False
         if self.thread.ident is not None:
             self.thread.join(5)
         if self.sockpath and os.path.exists(self.sockpath):
